@@ -11,6 +11,7 @@ import (
 	"sync/atomic"
 	"testing"
 
+	"github.com/couchbase/sync_gateway/base"
 	kit "github.com/couchbase/sync_gateway/verifkit"
 	"pgregory.net/rapid"
 )
@@ -240,4 +241,252 @@ func TestVerif_C12_Rest(t *testing.T) {
 		}
 		rec.Case(render(), oldSession || oldCred, cl...)
 	})
+}
+
+// ---------------------------------------------------------------------------------------------------------------
+// DelSessions (quick + thorough): the admin endpoint "delete all sessions of the user"
+// (DELETE /{db}/_user/{name}/_session) in generated histories over 1-2 users, in a generated fraction of cases with a
+// concurrent admin update of the same user document committed immediately before the handler's CAS write of the user
+// document (one-shot hook on the leaky bucket's WriteCas, keyed on the user's document key). The harness repeats the
+// DELETE while it is refused with 409. Oracle from the statement ("deleted sessions never authenticate"): once a
+// delete-all-sessions request has been acknowledged with 200, every session of that user created before it answers
+// 401; sessions created afterwards, and the other user's sessions, answer 200; a session deleted singly or issued
+// before a password change answers 401.
+
+type vfC12DelUser struct {
+	name, label string
+	gen         int // acknowledged delete-all-sessions requests + password changes so far
+	pwN         int
+	chN         int
+}
+
+type vfC12DelSession struct {
+	id      string
+	user    int
+	gen     int
+	alive   bool
+	afterDA bool // issued before an acknowledged delete-all of its user
+}
+
+func TestVerif_C12_DeleteAllSessions(ot *testing.T) {
+	rec := kit.New("C12", "DeleteAllSessions")
+	defer rec.Flush()
+	rapid.Check(ot, func(t *rapid.T) {
+		var (
+			tester    *RestTester
+			armedKey  atomic.Pointer[string]
+			injecting atomic.Bool
+			injectFn  func() error
+			injected  int
+			injectErr error
+		)
+		hook := func(key string) (uint64, error) {
+			k := armedKey.Load()
+			if k == nil || *k != key {
+				return 0, nil
+			}
+			if !injecting.CompareAndSwap(false, true) {
+				return 0, nil // the injected writer's own CAS write
+			}
+			defer injecting.Store(false)
+			armedKey.Store(nil) // one shot
+			if err := injectFn(); err != nil {
+				injectErr = err
+				return 0, nil
+			}
+			injected++
+			return 0, nil
+		}
+		tester = NewRestTester(ot, &RestTesterConfig{
+			LeakyBucketConfig: &base.LeakyBucketConfig{WriteCasCallback: hook},
+		})
+		defer tester.Close()
+		metaKeys := tester.GetDatabase().MetadataKeys
+
+		var ops []string
+		render := func() string { return strings.Join(ops, "; ") }
+		classes := []string{}
+		nontrivial := false
+		inconclusive := func(format string, args ...any) {
+			rec.Inconclusive()
+			kit.InconclusiveLine("C12", "DeleteAllSessions: "+format+"; case: %s", append(args, render())...)
+			t.Skip("inconclusive")
+		}
+		adminPut := func(u *vfC12DelUser, body string) error {
+			resp := tester.SendAdminRequest(http.MethodPut, "/{{.db}}/_user/"+u.name, body)
+			if resp.Code != 200 && resp.Code != 201 {
+				return fmt.Errorf("PUT _user/%s %s answered %d: %s", u.label, body, resp.Code, resp.Body.String())
+			}
+			return nil
+		}
+
+		nUsers := rapid.IntRange(1, 2).Draw(t, "users")
+		var users []*vfC12DelUser
+		for i := 0; i < nUsers; i++ {
+			u := &vfC12DelUser{name: fmt.Sprintf("vfdel%c", 'a'+i), label: fmt.Sprintf("u%d", i)}
+			users = append(users, u)
+		}
+		var sessions []*vfC12DelSession
+
+		kit.Guard(t, "C12", "DeleteAllSessions", render, func() {
+			for _, u := range users {
+				if err := adminPut(u, `{"password":"pw0-`+u.label+`"}`); err != nil {
+					inconclusive("create user: %v", err)
+				}
+				ops = append(ops, "create("+u.label+")")
+			}
+			createSession := func(ui int) {
+				u := users[ui]
+				resp := tester.SendAdminRequest(http.MethodPost, "/{{.db}}/_session", fmt.Sprintf(`{"name":%q,"ttl":3600}`, u.name))
+				var body struct {
+					SessionID string `json:"session_id"`
+				}
+				if resp.Code != 200 || json.Unmarshal(resp.Body.Bytes(), &body) != nil || body.SessionID == "" {
+					inconclusive("create session for %s answered %d: %s", u.label, resp.Code, resp.Body.String())
+				}
+				sessions = append(sessions, &vfC12DelSession{id: body.SessionID, user: ui, gen: u.gen, alive: true})
+				ops = append(ops, fmt.Sprintf("createSession(%s)=s%d", u.label, len(sessions)-1))
+			}
+			present := func(i int) {
+				s := sessions[i]
+				u := users[s.user]
+				resp := tester.SendRequestWithHeaders(http.MethodGet, "/{{.db}}/", "", map[string]string{"Cookie": "SyncGatewaySession=" + s.id})
+				ops = append(ops, fmt.Sprintf("cookieAuth(s%d)=%d", i, resp.Code))
+				mustFail := !s.alive || s.gen != u.gen
+				switch {
+				case resp.Code == 200 && mustFail && s.afterDA:
+					kit.Violation(t, "C12", "DeleteAllSessions", render(), "session s%d of %s was issued before a delete-all-sessions request that was acknowledged with 200, but still authenticates (GET /db/ answered 200)", i, u.label)
+				case resp.Code == 200 && mustFail:
+					kit.Violation(t, "C12", "DeleteAllSessions", render(), "session s%d of %s answered 200 (session deleted=%v, issued before a password change=%v)", i, u.label, !s.alive, s.gen != u.gen)
+				case resp.Code != 200 && !mustFail:
+					kit.Violation(t, "C12", "DeleteAllSessions", render(), "live session s%d of %s (not deleted, issued after every delete-all-sessions / password change of its user) answered %d", i, u.label, resp.Code)
+				case resp.Code != 200 && resp.Code != 401:
+					kit.Violation(t, "C12", "DeleteAllSessions", render(), "failed authentication answered %d, not 401", resp.Code)
+				}
+				if s.afterDA {
+					nontrivial = true
+					classes = append(classes, "presented_after_delete_all")
+				} else if vfC12DelAnyGen(users) {
+					classes = append(classes, "unaffected_session_presented_after_a_delete_all")
+				}
+			}
+			deleteAll := func(ui int) {
+				u := users[ui]
+				kind := rapid.SampledFrom([]string{"none", "none", "email", "channels", "disabled"}).Draw(t, "concurrent")
+				injected, injectErr = 0, nil
+				if kind != "none" {
+					// Settle pending channel recomputation of the user first, so that the first CAS write of the user
+					// document seen by the hook is the handler's write of the rotated session UUID.
+					if resp := tester.SendAdminRequest(http.MethodGet, "/{{.db}}/_user/"+u.name, ""); resp.Code != 200 {
+						inconclusive("GET _user/%s answered %d", u.label, resp.Code)
+					}
+					u.chN++
+					n := u.chN
+					injectFn = func() error {
+						switch kind {
+						case "email":
+							return adminPut(u, fmt.Sprintf(`{"email":"%s%d@example.com"}`, u.name, n))
+						case "channels":
+							return adminPut(u, fmt.Sprintf(`{"admin_channels":["ch%d"]}`, n))
+						default:
+							if err := adminPut(u, `{"disabled":true}`); err != nil {
+								return err
+							}
+							return adminPut(u, `{"disabled":false}`)
+						}
+					}
+					key := metaKeys.UserKey(u.name)
+					armedKey.Store(&key)
+				}
+				var codes []string
+				acknowledged := false
+				for attempt := 0; attempt < 4 && !acknowledged; attempt++ {
+					resp := tester.SendAdminRequest(http.MethodDelete, "/{{.db}}/_user/"+u.name+"/_session", "")
+					codes = append(codes, fmt.Sprint(resp.Code))
+					acknowledged = resp.Code == 200
+					if !acknowledged && resp.Code != 409 {
+						armedKey.Store(nil)
+						ops = append(ops, fmt.Sprintf("deleteAllSessions(%s,concurrent=%s)=%s", u.label, kind, strings.Join(codes, ",")))
+						inconclusive("delete all sessions of %s answered %d: %s", u.label, resp.Code, resp.Body.String())
+					}
+				}
+				armedKey.Store(nil)
+				ops = append(ops, fmt.Sprintf("deleteAllSessions(%s,concurrent=%s,injected=%d)=%s", u.label, kind, injected, strings.Join(codes, ",")))
+				if injectErr != nil {
+					inconclusive("injected update: %v", injectErr)
+				}
+				if !acknowledged {
+					inconclusive("delete all sessions of %s was never acknowledged", u.label)
+				}
+				u.gen++
+				for _, s := range sessions {
+					if s.user == ui {
+						s.afterDA = true
+					}
+				}
+				classes = append(classes, "delete_all")
+				if injected > 0 {
+					classes = append(classes, "concurrent_update_injected", "concurrent_"+kind)
+				} else if kind != "none" {
+					classes = append(classes, "concurrent_update_hook_not_reached")
+				}
+				if codes[0] == "409" {
+					classes = append(classes, "delete_all_answered_409_first")
+				}
+			}
+
+			for n := rapid.IntRange(1, 3).Draw(t, "initialSessions"); n > 0; n-- {
+				createSession(0)
+			}
+			steps := rapid.SliceOfN(rapid.SampledFrom([]string{
+				"session", "session", "deleteAll", "deleteAll", "deleteAll", "present", "present", "present", "deleteSession", "setPassword",
+			}), 3, 10).Draw(t, "steps")
+			for _, step := range steps {
+				switch step {
+				case "session":
+					createSession(rapid.IntRange(0, nUsers-1).Draw(t, "user"))
+				case "deleteAll":
+					deleteAll(rapid.IntRange(0, nUsers-1).Draw(t, "user"))
+				case "present":
+					present(rapid.IntRange(0, len(sessions)-1).Draw(t, "session"))
+				case "deleteSession":
+					i := rapid.IntRange(0, len(sessions)-1).Draw(t, "session")
+					s := sessions[i]
+					path := "/{{.db}}/_session/" + s.id
+					if rapid.Bool().Draw(t, "viaUser") {
+						path = "/{{.db}}/_user/" + users[s.user].name + "/_session/" + s.id
+					}
+					resp := tester.SendAdminRequest(http.MethodDelete, path, "")
+					ops = append(ops, fmt.Sprintf("deleteSession(s%d)=%d", i, resp.Code))
+					if resp.Code == 200 {
+						s.alive = false
+					} else if s.alive && s.gen == users[s.user].gen {
+						inconclusive("delete of live session s%d answered %d: %s", i, resp.Code, resp.Body.String())
+					}
+				case "setPassword":
+					u := users[rapid.IntRange(0, nUsers-1).Draw(t, "user")]
+					u.pwN++
+					if err := adminPut(u, fmt.Sprintf(`{"password":"pw%d-%s"}`, u.pwN, u.label)); err != nil {
+						inconclusive("set password: %v", err)
+					}
+					u.gen++
+					ops = append(ops, "setPassword("+u.label+")")
+					classes = append(classes, "password_change")
+				}
+			}
+			for i := range sessions {
+				present(i)
+			}
+		})
+		rec.Case(render(), nontrivial, classes...)
+	})
+}
+
+func vfC12DelAnyGen(users []*vfC12DelUser) bool {
+	for _, u := range users {
+		if u.gen > 0 {
+			return true
+		}
+	}
+	return false
 }
